@@ -575,6 +575,13 @@ def find_isometry(form, partial_map, force_oriented=False):
 
     kernel_basis = kernel(orth_partial @ form).swapaxes(-1, -2)
 
+    # Gram-Schmidt breaks down when it meets a null vector of an
+    # indefinite form, and the kernel basis is arbitrary. So first
+    # rotate the basis to one which diagonalizes the form on the kernel.
+    gram = kernel_basis @ form @ kernel_basis.swapaxes(-1, -2)
+    _, gram_eigvecs = eigh(gram)
+    kernel_basis = gram_eigvecs.swapaxes(-1, -2) @ kernel_basis
+
     orth_kernel = indefinite_orthogonalize(form, kernel_basis)
 
     iso = np.concatenate([orth_partial, orth_kernel], axis=-2)
